@@ -239,6 +239,13 @@ func chunkRange(req *http.Request) (start, end int64, _ error) {
 	}
 
 	if rangeOK && req.ContentLength >= 0 {
+		if end == 0 && start+req.ContentLength <= 1 {
+			// A Content-Range that ends at byte 0 is ambiguous: it's used both for
+			// the single byte at offset 0 ("0-0" with one byte of content) and for
+			// an empty chunk at offset 0 or 1 (because RangeString clamps the end at zero),
+			// so use the content length to tell them apart.
+			end = start + req.ContentLength
+		}
 		rangeLength := end - start
 		if rangeLength != req.ContentLength {
 			return 0, 0, badAPIUseError("Content-Range implies a length of %d but Content-Length is %d", rangeLength, req.ContentLength)
